@@ -467,6 +467,10 @@ func c15HelloMachine(r *verdict.Run, walks int) {
 			cn.Timeout = 5 * time.Second
 			cns = append(cns, cn)
 		}
+		ids := make([]int64, 3)
+		for i := range cns {
+			ids[i], _ = cns[i].ClientID()
+		}
 		cns[0].Do("HSET", "ph", "f", "v")
 		cns[0].Do("SADD", "ps", "a", "b")
 		cns[0].Do("MSET", "pa", "ohmytext", "pb", "mynewtext")
@@ -584,6 +588,31 @@ func c15HelloMachine(r *verdict.Run, walks int) {
 				nm, err := cns[j].Do("CLIENT", "GETNAME")
 				if err == nil && nm.Text() != names[j] && !(nm.Null && names[j] == "") {
 					r.Report("c15/hello/name-state", fmt.Sprintf("conn%d: CLIENT GETNAME = %s, expected %q", j, nm, names[j]), rep())
+				}
+				// what this connection is told about the others: every line of CLIENT LIST carries the protocol and the name
+				// of the connection it describes, whoever asks and in whatever protocol
+				if cl, err := cns[j].Do("CLIENT", "LIST"); err == nil {
+					for _, line := range strings.Split(cl.Text(), "\n") {
+						f := map[string]string{}
+						for _, kv := range strings.Fields(line) {
+							if p := strings.IndexByte(kv, '='); p > 0 {
+								f[kv[:p]] = kv[p+1:]
+							}
+						}
+						for k := range cns {
+							if f["id"] != strconv.FormatInt(ids[k], 10) {
+								continue
+							}
+							if rv, ok := f["resp"]; ok && rv != strconv.Itoa(proto[k]) {
+								r.Report("c15/hello/client-list-protocol-of-another-connection", fmt.Sprintf("CLIENT LIST asked by conn%d (RESP%d) says resp=%s for conn%d, which speaks RESP%d", j, proto[j], rv, k, proto[k]), rep())
+								return
+							}
+							if nv, ok := f["name"]; ok && nv != names[k] && !strings.ContainsAny(names[k], " \t\r\n") {
+								r.Report("c15/hello/client-list-name-of-another-connection", fmt.Sprintf("CLIENT LIST asked by conn%d says name=%q for conn%d, whose name is %q", j, nv, k, names[k]), rep())
+								return
+							}
+						}
+					}
 				}
 			}
 		}
